@@ -104,6 +104,22 @@ theorem deleteAll_sublist (os : List Order) (ids : List Nat) : (deleteAll os ids
     simp only [deleteAll, List.foldl_cons]
     exact (ih (deleteOrder os id)).trans (deleteOrder_sublist os id)
 
+theorem getOrder_of_mem_nodup {os : List Order} (h : (os.map (·.id)).Nodup) {o : Order} (ho : o ∈ os) :
+    getOrder os o.id = some o := by
+  induction os with
+  | nil => simp at ho
+  | cons x t ih =>
+    simp only [List.map_cons, List.nodup_cons] at h
+    simp only [getOrder]
+    rcases List.mem_cons.mp ho with rfl | ho'
+    · simp
+    · split
+      · rename_i hx
+        exfalso
+        apply h.1
+        exact List.mem_map.mpr ⟨o, ho', hx.symm⟩
+      · exact ih h.2 ho'
+
 theorem getOrder_none_not_mem {os : List Order} {id : Nat} (h : getOrder os id = none) : id ∉ os.map (·.id) := by
   induction os with
   | nil => simp
@@ -322,6 +338,99 @@ theorem mem_setCommitment {cs : List Commitment} {m : Nat} {a : Addr} {amt : Coi
   split at h
   · exact Or.inr (mem_deleteCommitment h)
   · exact mem_putCommitment h
+
+def commitKey (c : Commitment) : Nat × Addr := (c.market, c.account)
+
+theorem deleteCommitment_sublist (cs : List Commitment) (m : Nat) (a : Addr) :
+    (deleteCommitment cs m a).Sublist cs := by
+  induction cs with
+  | nil => simp [deleteCommitment]
+  | cons x t ih =>
+    simp only [deleteCommitment]
+    split
+    · exact List.sublist_cons_self x t
+    · exact ih.cons_cons x
+
+theorem keys_putCommitment (cs : List Commitment) (n : Commitment) (h : (cs.map commitKey).Nodup) :
+    ((putCommitment cs n).map commitKey).Nodup := by
+  induction cs with
+  | nil => simp [putCommitment]
+  | cons x t ih =>
+    simp only [List.map_cons, List.nodup_cons] at h
+    simp only [putCommitment]
+    split
+    · rename_i hx
+      simp only [List.map_cons, List.nodup_cons]
+      have : commitKey n = commitKey x := by simp [commitKey, hx.1, hx.2]
+      rw [this]; exact h
+    · rename_i hx
+      simp only [List.map_cons, List.nodup_cons]
+      refine ⟨?_, ih h.2⟩
+      intro hm
+      simp only [List.mem_map] at hm
+      obtain ⟨c, hc, hk⟩ := hm
+      rcases mem_putCommitment hc with rfl | hc'
+      · simp only [commitKey, Prod.mk.injEq] at hk
+        exact hx ⟨hk.1.symm, hk.2.symm⟩
+      · exact h.1 (List.mem_map.mpr ⟨c, hc', hk⟩)
+
+theorem keys_setCommitment (cs : List Commitment) (m : Nat) (a : Addr) (amt : Coins) (h : (cs.map commitKey).Nodup) :
+    ((setCommitment cs m a amt).map commitKey).Nodup := by
+  unfold setCommitment
+  split
+  · exact h.sublist ((deleteCommitment_sublist cs m a).map _)
+  · exact keys_putCommitment cs _ h
+
+theorem getCommitment_of_mem_nodup {cs : List Commitment} (h : (cs.map commitKey).Nodup) {c : Commitment} (hc : c ∈ cs) :
+    getCommitment cs c.market c.account = c.amount := by
+  induction cs with
+  | nil => simp at hc
+  | cons x t ih =>
+    simp only [List.map_cons, List.nodup_cons] at h
+    simp only [getCommitment]
+    rcases List.mem_cons.mp hc with rfl | hc'
+    · simp
+    · split
+      · rename_i hx
+        exfalso
+        apply h.1
+        exact List.mem_map.mpr ⟨c, hc', by simp [commitKey, hx.1, hx.2]⟩
+      · exact ih h.2 hc'
+
+theorem getCommitment_deleteCommitment_ne (cs : List Commitment) {m m' : Nat} {a a' : Addr}
+    (hne : (m', a') ≠ (m, a)) :
+    getCommitment (deleteCommitment cs m a) m' a' = getCommitment cs m' a' := by
+  induction cs with
+  | nil => simp [deleteCommitment]
+  | cons x t ih =>
+    simp only [deleteCommitment]
+    split
+    · rename_i hx
+      have : ¬ (x.market = m' ∧ x.account = a') := by
+        rintro ⟨h1, h2⟩
+        apply hne
+        rw [← h1, ← h2, hx.1, hx.2]
+      simp [getCommitment, this]
+    · simp only [getCommitment, ih]
+
+/-- with distinct keys, deleting a key leaves no entry with that key -/
+theorem not_mem_deleteCommitment {cs : List Commitment} (h : (cs.map commitKey).Nodup) (m : Nat) (a : Addr) :
+    (m, a) ∉ (deleteCommitment cs m a).map commitKey := by
+  induction cs with
+  | nil => simp [deleteCommitment]
+  | cons x t ih =>
+    simp only [List.map_cons, List.nodup_cons] at h
+    simp only [deleteCommitment]
+    split
+    · rename_i hx
+      have : commitKey x = (m, a) := by simp [commitKey, hx.1, hx.2]
+      rw [← this]; exact h.1
+    · rename_i hx
+      simp only [List.map_cons, List.mem_cons, not_or]
+      refine ⟨?_, ih h.2⟩
+      intro heq
+      simp only [commitKey, Prod.mk.injEq] at heq
+      exact hx ⟨heq.1.symm, heq.2.symm⟩
 
 /-- the stored amount is either empty or the amount of a stored commitment -/
 theorem getCommitment_cases (cs : List Commitment) (m : Nat) (a : Addr) :
